@@ -546,11 +546,22 @@ func (t *tr) call(e *ast.CallExpr, en env) V {
 			v = V{"false", "Err"} // an error-only call that is assumed to succeed (its failure is the model's)
 		}
 		if strings.Contains(v.L, "%") {
-			for i, a := range e.Args {
+			for i := len(e.Args) - 1; i >= 0; i-- {
+				a := e.Args[i]
 				ph := fmt.Sprintf("%%%d", i+1)
 				if strings.Contains(v.L, ph) {
+					// a keyed read: the oracle is a FUNCTION of the key the code passes;
+					// `collections.Join(a, b)` supplies two arguments
+					if c, ok := a.(*ast.CallExpr); ok && t.w.render(c.Fun) == "collections.Join" {
+						var parts []string
+						for _, x := range c.Args {
+							parts = append(parts, atom(t.expr(x, en).L))
+						}
+						v.L = strings.ReplaceAll(v.L, ph, strings.Join(parts, " "))
+						continue
+					}
 					av := t.expr(a, en)
-					v.L = strings.ReplaceAll(v.L, ph, av.L)
+					v.L = strings.ReplaceAll(v.L, ph, atom(av.L))
 				}
 			}
 		}
